@@ -10,7 +10,7 @@ Extraction "model.ml"
   be_put be_get put get parse_struct wf wdepth code_of
   gk_skip
   val_eqb vdepth
-  has_type env_ok zero_of fresh apply_init lookup_sd
+  has_type env_ok zero_of fresh apply_init lookup_sd can_skip_nil can_skip_default field_fixed_size required_ids get_field
   denote encode_spec absorb_top absorb need skipped_depth norm norm_top enums32 req_complete holders_empty init_ok prior_ok
   append_struct encoded_size encode_object
   decode_object decode_struct
